@@ -270,10 +270,15 @@ def human_case(casedir, shard, idx):
 # ------------------------------------------------------------------ findings / evidence
 
 def known_findings(pid):
-    p = os.path.join(VERIF, "KNOWN_FINDINGS.json")
-    if not os.path.exists(p):
-        return []
-    return [f for f in json.load(open(p)).get("findings", []) if f.get("property") == pid]
+    out = []
+    paths = [os.path.join(VERIF, "KNOWN_FINDINGS.json")]
+    fd = os.path.join(VERIF, "findings.d")
+    if os.path.isdir(fd):
+        paths += [os.path.join(fd, f) for f in sorted(os.listdir(fd)) if f.endswith(".json")]
+    for p in paths:
+        if os.path.exists(p):
+            out += [f for f in json.load(open(p)).get("findings", []) if f.get("property") == pid]
+    return out
 
 
 def write_replay(pid, name, payload):
